@@ -167,6 +167,33 @@ fn run1<T: Flt>(src: &mut Src, obs: &mut Obs) -> Result<(), Fail> {
             nontrivial = true;
         }
     }
+    // the same through the batch entry points: element k of a batch depends only on the bracket of q[k] - in particular for
+    // a batch that looks like the axis (n points, most of them the knots)
+    if c.n >= 3 && src.chance(1, 3) {
+        let batch: Vec<f64> = if src.bool() { axis_like_batch::<T>(src, &c.x).into_iter().map(|p| p.0).collect() } else { (0..src.usize_in(2, 6)).map(|_| query_in_range::<T>(src, &c.x).0).collect() };
+        obs.class(if batch.len() == c.n { "batch:axis-like" } else { "batch:random" });
+        let k = src.below(batch.len() as u64) as usize;
+        let i = bracket(&c.x, batch[k]);
+        let mut t = c.clone();
+        for r in 0..c.n {
+            if r != i && r != i + 1 {
+                for l in 0..c.lanes {
+                    t.data[r * c.lanes + l] = if src.bool() { f64::NAN } else { T::of(c.data[r * c.lanes + l] + 1.0 + c.data[r * c.lanes + l].abs()).f() };
+                }
+            }
+        }
+        let b = t.build::<T>(extrap)?;
+        let ep = if src.bool() { 2 } else { 4 };
+        let ra = eval1::<T>(a.as_ref(), &batch, ep, c.lanes, &c.trailing)?;
+        let rb = eval1::<T>(b.as_ref(), &batch, ep, c.lanes, &c.trailing)?;
+        for l in 0..c.lanes {
+            obs.asserts += 1;
+            if ra[k][l].key() != rb[k][l].key() {
+                fail!("non-bracket-dependence/batch", "T={} lane {l}: element {k} of a batch of {} queries (q = {:e}, bracket {i}, entry {}): {:e} becomes {:e} when only rows that do not bracket it change; x={:?} batch={:?}",
+                    T::NAME, batch.len(), batch[k], EP_NAMES[ep], ra[k][l].f(), rb[k][l].f(), c.x, batch);
+            }
+        }
+    }
     obs.nontrivial = nontrivial;
     if nontrivial {
         c.key(obs);
